@@ -16,7 +16,13 @@ type Tape struct {
 	in     []uint32
 	pos    int
 	Rec    []uint32
+	// Marks are positions in Rec at which an engine-level operation starts
+	// (Mark()); the shrinker tries to delete whole operations first.
+	Marks []int
 }
+
+// Mark notes that an operation (a step of the workload) starts here.
+func (t *Tape) Mark() { t.Marks = append(t.Marks, len(t.Rec)) }
 
 func NewTape(seed uint64) *Tape {
 	// scramble the seed first: with a plain affine start the stream of seed
